@@ -31,6 +31,12 @@ var (
 	yieldSeed atomic.Uint64
 	journalFd = -1
 	callback  atomic.Pointer[func(string)]
+
+	// crash barrier: an armed crash waits (bounded) while another goroutine is
+	// between these two sites, e.g. inside a large write(2) that a real kill
+	// could cut short - torn writes are explored separately by truncation
+	barrierBegin, barrierEnd string
+	inBarrier                atomic.Int64
 )
 
 func init() {
@@ -46,6 +52,11 @@ func init() {
 			s, _ := strconv.ParseUint(p[0], 10, 64)
 			pm, _ := strconv.ParseInt(p[1], 10, 64)
 			SetYield(s, pm)
+		}
+	}
+	if v := os.Getenv("VERIF_CRASH_BARRIER"); v != "" {
+		if p := strings.SplitN(v, ">", 2); len(p) == 2 {
+			barrierBegin, barrierEnd = p[0], p[1]
 		}
 	}
 	if v := os.Getenv("VERIF_JOURNAL_FD"); v != "" {
@@ -133,12 +144,21 @@ func counter(site string) *int64 {
 // Point marks a named site.
 func Point(site string) {
 	n := atomic.AddInt64(counter(site), 1)
+	if barrierEnd != "" && site == barrierEnd {
+		inBarrier.Add(-1)
+	}
 	if cs := crashSite.Load(); cs != nil && *cs == site && n == crashN.Load() {
+		for i := 0; inBarrier.Load() > 0 && i < 30000; i++ {
+			time.Sleep(100 * time.Microsecond)
+		}
 		if journalFd >= 0 {
 			syscall.Write(journalFd, []byte(fmt.Sprintf("CRASH %s %d\n", site, n)))
 		}
 		syscall.Kill(syscall.Getpid(), syscall.SIGKILL)
 		select {}
+	}
+	if barrierBegin != "" && site == barrierBegin {
+		inBarrier.Add(1)
 	}
 	if f := callback.Load(); f != nil {
 		(*f)(site)
